@@ -3,7 +3,7 @@ C13.panic, C13.alloc, C13.rec, C13.prog, C13.trunc, C13.read, C13.sink."""
 import re
 
 from sa import bounds, core, flow, decision, discipline as D
-from . import common
+from . import common, C16
 
 DEC_ROOTS = (r"^rbx_binary::from_reader$|^rbx_binary::deserializer::Deserializer::<'db>::deserialize$|^rbx_xml::from_reader$|^rbx_xml::from_reader_default$"
              r"|^rbx_xml::from_str$|^rbx_xml::from_str_default$|^rbx_xml::deserializer::decode_internal$|^rbx_types::attributes::Attributes::from_reader$"
@@ -21,10 +21,6 @@ DISCHARGED = {
     ("rbx_types::material_colors::MaterialColors::decode", "index", "color[0]"): "guarded by `buffer.len() != 69 => Err`; 69 = 23*3 so every chunk has 3 bytes",
     ("rbx_types::material_colors::MaterialColors::decode", "index", "color[1]"): "as above",
     ("rbx_types::material_colors::MaterialColors::decode", "index", "color[2]"): "as above",
-    ("rbx_binary::core::find_property_descriptors", "unwrap", "*"): "database-dependent: discharged by C16.oblig/C16.data on the bundled database",
-    ("rbx_binary::core::find_serialized_from_canonical", "unwrap", "*"): "database-dependent: C16.oblig",
-    ("rbx_xml::core::find_property_descriptors", "unwrap", "*"): "database-dependent: C16.oblig",
-    ("rbx_xml::core::find_property_descriptors", "macro:unimplemented", "unimplemented"): "dead wildcard arm over an enum all of whose variants are matched: C16.oblig",
     ("rbx_xml::deserializer::deserialize_properties", "macro:unimplemented", "unimplemented"): "dead wildcard arm over DataType {Value, Enum}: checked below",
     ("<rbx_reflection_database::DATABASE as core::ops::deref::Deref>::deref::__static_ref_initialize", "macro:panic", "panic"): "decoding of the bundled database: C16.load",
     ("<rbx_types::shared_string::SharedString as core::ops::drop::Drop>::drop", "unwrap", "unwrap∘self.data.take()"): "`data` is Some until drop runs (C18.eq: only Drop empties it)",
@@ -77,12 +73,14 @@ def rule_panic(c, prog, g, dreach):
     c.rule(R, "every panic-capable construct (unwrap/expect, panic!/unreachable!/unimplemented!/assert!, indexing, slice ops, integer division) in code reachable from a decoder entry point is enumerated; each must be in the confirmed table with the invariant that discharges it, or it is a violation")
     n = 0
     computed = 0
+    dbdep = 0
     fns_with_sites = 0
     for fn in lib_named(prog, dreach):
         sites = flow.panic_sites(fn)
         if sites:
             fns_with_sites += 1
         nest = None
+        origins = None
         for s in sites:
             n += 1
             inst = f"{fn.path}|{s['kind']}|{s['fp']}"
@@ -93,6 +91,14 @@ def rule_panic(c, prog, g, dreach):
                 why_c = bounds.const_index(s) or bounds.enum_index(fn, s) or nest.get(id(s["node"]))
                 if why_c:
                     computed += 1
+                    c.ok(R, inst)
+                    continue
+            if C16.is_lookup_fn(prog, fn):
+                # descriptor lookups: discharged by the database obligation the key's provenance names (C16.oblig / C16.data)
+                if origins is None:
+                    origins = core.binding_origins(fn)
+                if C16.classify_site(prog, fn, s, origins) is not None:
+                    dbdep += 1
                     c.ok(R, inst)
                     continue
             why = lookup(fn.path, s["kind"], s["fp"])
@@ -119,6 +125,7 @@ def rule_panic(c, prog, g, dreach):
                 c.ok(R, inst)
     c.floor(R, n, 80, "panic-capable sites reachable from decoders")
     c.floor(R, computed, 3, "index sites discharged by a computed bound (sa.bounds)")
+    c.floor(R, dbdep, 5, "descriptor-lookup sites discharged by a database obligation")
     c.analysed["decoder_reachable_functions"] = len(dreach)
     c.sample({"rule": R, "sites": n, "functions_with_sites": fns_with_sites, "example_discharge": {"site": DS + "decode_prop_chunk | unwrap∘self.instances_by_ref.get_mut(referent)", "invariant": DISCHARGED[(DS + "decode_prop_chunk", "unwrap", "unwrap∘self.instances_by_ref.get_mut(referent)")]}})
     # the invariant behind PROV:referents: instances_by_ref.remove only in finish; inserts of referents in decode_inst_chunk
